@@ -837,6 +837,9 @@ func c14Corpus() []c14Case {
 			{Op: "stop"}, {Op: "cat", D: 30 * c14Ms}, {Op: "idle", Gap: 300 * c14Ms}, {Op: "longidle", Gap: 5 * c14Ms},
 			{Op: "cat", D: 20 * c14Ms}, {Op: "quick", D: 50 * c14Ms}, {Op: "idle", Gap: 5 * c14Ms}, {Op: "cat", D: 50 * c14Ms}, {Op: "stop"}, {Op: "cat", D: 20 * c14Ms}, {Op: "med", D: c14Second},
 		}},
+		// the time left by a stopped clock is older than timeout + 1s (the slop of clockEnd): the restarted clock
+		// must be set to run until the new deadline, not until one computed from the old time
+		{PeriodNs: c14Ms, Events: []c14Event{{Op: "cat", D: 20 * c14Ms}, {Op: "stop"}, {Op: "idle", Gap: 1200 * c14Ms}, {Op: "cat", D: 30 * c14Ms}, {Op: "quick", D: 50 * c14Ms}}},
 		// a coarse period makes the +clockPeriod slack visible: deadline from a stopped clock, then from a running one
 		{PeriodNs: 16 * c14Ms, Events: []c14Event{
 			{Op: "cat", D: 40 * c14Ms}, {Op: "idle", Gap: 7 * c14Ms}, {Op: "cat", D: 40 * c14Ms}, {Op: "idle", Gap: 3 * c14Ms}, {Op: "cat", D: 60 * c14Ms},
